@@ -6,7 +6,7 @@ Import ListNotations.
 Open Scope string_scope.
 
 Definition exp_cone_Task_Execute : list string :=
-  ["BaseProcess.Name"; "CheckWithMsg"; "Fail"; "Failf"; "FileIP.AddTag"; "FileIP.AddTags"; "FileIP.AuditFilePath"; "FileIP.AuditInfo"; "FileIP.Fail"; "FileIP.Failf"; "FileIP.FifoPath"; "FileIP.Path"; "FileIP.SetAuditInfo"; "FileIP.Tags"; "FileIP.TempDir"; "FileIP.TempPath"; "FileIP.WriteAuditLogToFile"; "FileIP.auditInfoSnapshot"; "FileIP.createDirs"; "FinalizePaths"; "NewAuditInfo"; "Task.Audit"; "Task.Auditf"; "Task.Fail"; "Task.Failf"; "Task.InIP"; "Task.Param"; "Task.Tag"; "Task.TempDir"; "Task.anyOutputsExist"; "Task.createDirs"; "Task.drainStreamingInputs"; "Task.ensureAllOutputsExist"; "Task.executeCommand"; "Task.finalizePaths"; "Task.tempDirsExist"; "Task.writeAuditLogs"; "UnmarshalAuditInfoJSONFile"; "Workflow.DecConcurrentTasks"; "Workflow.IncConcurrentTasks"; "errWrap"; "randSeqLC"; "replaceParentDirsWithPlaceholder"; "replacePlaceholdersWithParentDirs"; "sanitizePathFragment"; "sortedFileIPMapKeys"; "sortedFileIPSliceMapKeys"; "sortedStringMapKeys"; "splitAllPaths"; "verifPoint"; "verifTaskKeys"].
+  ["BaseProcess.Name"; "CheckWithMsg"; "Fail"; "Failf"; "FileIP.AddTag"; "FileIP.AddTags"; "FileIP.AuditFilePath"; "FileIP.AuditInfo"; "FileIP.Fail"; "FileIP.Failf"; "FileIP.FifoPath"; "FileIP.Path"; "FileIP.SetAuditInfo"; "FileIP.Tags"; "FileIP.TempDir"; "FileIP.TempPath"; "FileIP.WriteAuditLogToFile"; "FileIP.auditInfoSnapshot"; "FileIP.createDirs"; "FinalizePaths"; "NewAuditInfo"; "Task.Audit"; "Task.Auditf"; "Task.Fail"; "Task.Failf"; "Task.InIP"; "Task.Param"; "Task.Tag"; "Task.TempDir"; "Task.anyOutputsExist"; "Task.createDirs"; "Task.drainStreamingInputs"; "Task.ensureAllOutputsExist"; "Task.executeCommand"; "Task.finalizePaths"; "Task.signalDone"; "Task.tempDirsExist"; "Task.writeAuditLogs"; "UnmarshalAuditInfoJSONFile"; "Workflow.DecConcurrentTasks"; "Workflow.IncConcurrentTasks"; "errWrap"; "randSeqLC"; "replaceParentDirsWithPlaceholder"; "replacePlaceholdersWithParentDirs"; "sanitizePathFragment"; "sortedFileIPMapKeys"; "sortedFileIPSliceMapKeys"; "sortedStringMapKeys"; "splitAllPaths"; "verifPoint"; "verifTaskKeys"].
 
 Definition exp_cone_FinalizePaths : list string :=
   ["FileIP.Path"; "FileIP.TempPath"; "replaceParentDirsWithPlaceholder"; "replacePlaceholdersWithParentDirs"; "verifPoint"].
@@ -42,7 +42,7 @@ Definition exp_cone_Workflow_DecConcurrentTasks : list string :=
   ["verifPoint"].
 
 Definition exp_cone_Process_Run : list string :=
-  ["BaseProcess.CloseOutPorts"; "BaseProcess.Fail"; "BaseProcess.Failf"; "BaseProcess.InParamPorts"; "BaseProcess.InPorts"; "BaseProcess.Name"; "BaseProcess.OutPort"; "BaseProcess.OutPorts"; "BaseProcess.receiveOnInParamPorts"; "BaseProcess.receiveOnInPorts"; "CheckWithMsg"; "Fail"; "Failf"; "FileIP.AddTag"; "FileIP.AddTags"; "FileIP.AuditFilePath"; "FileIP.AuditInfo"; "FileIP.CreateFifo"; "FileIP.Exists"; "FileIP.Fail"; "FileIP.Failf"; "FileIP.FifoFileExists"; "FileIP.FifoPath"; "FileIP.Path"; "FileIP.SetAuditInfo"; "FileIP.Tags"; "FileIP.TempDir"; "FileIP.TempPath"; "FileIP.WriteAuditLogToFile"; "FileIP.auditInfoSnapshot"; "FileIP.createDirs"; "FinalizePaths"; "InParamPort.Fail"; "InParamPort.Failf"; "InParamPort.Name"; "InParamPort.Process"; "InPort.CloseConnection"; "InPort.Fail"; "InPort.Name"; "InPort.Process"; "InPort.Send"; "NewAuditInfo"; "NewBaseIP"; "NewFileIP"; "NewInPort"; "NewTask"; "OutParamPort.Fail"; "OutParamPort.Failf"; "OutParamPort.Name"; "OutParamPort.Process"; "OutPort.Close"; "OutPort.Fail"; "OutPort.Failf"; "OutPort.Name"; "OutPort.Process"; "OutPort.Send"; "OutPort.removeRemotePort"; "Process.Out"; "Process.createTasks"; "Task.Audit"; "Task.Auditf"; "Task.Execute"; "Task.Fail"; "Task.Failf"; "Task.InIP"; "Task.Param"; "Task.Tag"; "Task.TempDir"; "Task.anyOutputsExist"; "Task.createDirs"; "Task.drainStreamingInputs"; "Task.ensureAllOutputsExist"; "Task.executeCommand"; "Task.finalizePaths"; "Task.formatCommand"; "Task.tempDirsExist"; "Task.writeAuditLogs"; "UnmarshalAuditInfoJSONFile"; "Workflow.DecConcurrentTasks"; "Workflow.IncConcurrentTasks"; "Workflow.Name"; "applyPathModifiers"; "errWrap"; "getBufsize"; "getShellCommandPlaceHolderRegex"; "pathIsValid"; "prependParentDirPath"; "randSeqLC"; "replaceParentDirsWithPlaceholder"; "replacePlaceholdersWithParentDirs"; "sanitizePathFragment"; "sortedFileIPMapKeys"; "sortedFileIPSliceMapKeys"; "sortedStringMapKeys"; "splitAllPaths"; "strInSlice"; "taskQueue.NextTaskDone"; "verifPoint"; "verifPortName"; "verifTaskKeys"].
+  ["BaseProcess.CloseOutPorts"; "BaseProcess.Fail"; "BaseProcess.Failf"; "BaseProcess.InParamPorts"; "BaseProcess.InPorts"; "BaseProcess.Name"; "BaseProcess.OutPort"; "BaseProcess.OutPorts"; "BaseProcess.receiveOnInParamPorts"; "BaseProcess.receiveOnInPorts"; "CheckWithMsg"; "Fail"; "Failf"; "FileIP.AddTag"; "FileIP.AddTags"; "FileIP.AuditFilePath"; "FileIP.AuditInfo"; "FileIP.CreateFifo"; "FileIP.Exists"; "FileIP.Fail"; "FileIP.Failf"; "FileIP.FifoFileExists"; "FileIP.FifoPath"; "FileIP.Path"; "FileIP.SetAuditInfo"; "FileIP.Tags"; "FileIP.TempDir"; "FileIP.TempPath"; "FileIP.WriteAuditLogToFile"; "FileIP.auditInfoSnapshot"; "FileIP.createDirs"; "FinalizePaths"; "InParamPort.Fail"; "InParamPort.Failf"; "InParamPort.Name"; "InParamPort.Process"; "InPort.CloseConnection"; "InPort.Fail"; "InPort.Name"; "InPort.Process"; "InPort.Send"; "NewAuditInfo"; "NewBaseIP"; "NewFileIP"; "NewInPort"; "NewTask"; "OutParamPort.Fail"; "OutParamPort.Failf"; "OutParamPort.Name"; "OutParamPort.Process"; "OutPort.Close"; "OutPort.Fail"; "OutPort.Failf"; "OutPort.Name"; "OutPort.Process"; "OutPort.Send"; "OutPort.removeRemotePort"; "Process.Out"; "Process.createTasks"; "Task.Audit"; "Task.Auditf"; "Task.Execute"; "Task.Fail"; "Task.Failf"; "Task.InIP"; "Task.Param"; "Task.Tag"; "Task.TempDir"; "Task.anyOutputsExist"; "Task.createDirs"; "Task.drainStreamingInputs"; "Task.ensureAllOutputsExist"; "Task.executeCommand"; "Task.finalizePaths"; "Task.formatCommand"; "Task.signalDone"; "Task.tempDirsExist"; "Task.writeAuditLogs"; "UnmarshalAuditInfoJSONFile"; "Workflow.DecConcurrentTasks"; "Workflow.IncConcurrentTasks"; "Workflow.Name"; "applyPathModifiers"; "errWrap"; "getBufsize"; "getShellCommandPlaceHolderRegex"; "pathIsValid"; "prependParentDirPath"; "randSeqLC"; "replaceParentDirsWithPlaceholder"; "replacePlaceholdersWithParentDirs"; "sanitizePathFragment"; "sortedFileIPMapKeys"; "sortedFileIPSliceMapKeys"; "sortedStringMapKeys"; "splitAllPaths"; "strInSlice"; "taskQueue.NextTaskDone"; "verifPoint"; "verifPortName"; "verifTaskKeys"].
 
 Definition exp_cone_Process_createTasks : list string :=
   ["BaseProcess.Fail"; "BaseProcess.Failf"; "BaseProcess.InParamPorts"; "BaseProcess.InPorts"; "BaseProcess.Name"; "BaseProcess.receiveOnInParamPorts"; "BaseProcess.receiveOnInPorts"; "CheckWithMsg"; "Fail"; "Failf"; "FileIP.AuditFilePath"; "FileIP.AuditInfo"; "FileIP.Exists"; "FileIP.FifoPath"; "FileIP.Path"; "FileIP.Tags"; "FileIP.TempPath"; "NewAuditInfo"; "NewBaseIP"; "NewFileIP"; "NewInPort"; "NewTask"; "Task.Fail"; "Task.Failf"; "Task.InIP"; "Task.Param"; "Task.Tag"; "Task.TempDir"; "Task.formatCommand"; "UnmarshalAuditInfoJSONFile"; "applyPathModifiers"; "errWrap"; "getBufsize"; "getShellCommandPlaceHolderRegex"; "pathIsValid"; "prependParentDirPath"; "randSeqLC"; "replaceParentDirsWithPlaceholder"; "sanitizePathFragment"; "sortedFileIPMapKeys"; "sortedFileIPSliceMapKeys"; "sortedStringMapKeys"; "splitAllPaths"; "strInSlice"; "verifPoint"; "verifPortName"].
@@ -108,13 +108,13 @@ Definition exp_cone_InPort_Disconnect : list string :=
   ["BaseProcess.Name"; "Fail"; "Failf"; "InParamPort.Fail"; "InParamPort.Failf"; "InParamPort.Name"; "InParamPort.Process"; "InPort.Fail"; "InPort.Failf"; "InPort.Name"; "InPort.Process"; "InPort.SetReady"; "InPort.removeRemotePort"; "OutParamPort.Fail"; "OutParamPort.Failf"; "OutParamPort.Name"; "OutParamPort.Process"; "OutPort.Fail"; "OutPort.Name"; "OutPort.Process"; "Workflow.Name"].
 
 Definition exp_cone_Workflow_Run : list string :=
-  ["BaseProcess.Audit"; "BaseProcess.Auditf"; "BaseProcess.CloseAllOutPorts"; "BaseProcess.CloseOutParamPorts"; "BaseProcess.CloseOutPorts"; "BaseProcess.Fail"; "BaseProcess.Failf"; "BaseProcess.InParamPort"; "BaseProcess.InParamPorts"; "BaseProcess.InPort"; "BaseProcess.InPorts"; "BaseProcess.InitOutPort"; "BaseProcess.Name"; "BaseProcess.OutParamPort"; "BaseProcess.OutParamPorts"; "BaseProcess.OutPort"; "BaseProcess.OutPorts"; "BaseProcess.Ready"; "BaseProcess.receiveOnInParamPorts"; "BaseProcess.receiveOnInPorts"; "CheckWithMsg"; "Fail"; "Failf"; "FileIP.AddTag"; "FileIP.AddTags"; "FileIP.AuditFilePath"; "FileIP.AuditInfo"; "FileIP.CreateFifo"; "FileIP.Exists"; "FileIP.Fail"; "FileIP.Failf"; "FileIP.FifoFileExists"; "FileIP.FifoPath"; "FileIP.Path"; "FileIP.SetAuditInfo"; "FileIP.Tag"; "FileIP.Tags"; "FileIP.TempDir"; "FileIP.TempPath"; "FileIP.WriteAuditLogToFile"; "FileIP.auditInfoSnapshot"; "FileIP.createDirs"; "FinalizePaths"; "InParamPort.AddRemotePort"; "InParamPort.CloseConnection"; "InParamPort.Fail"; "InParamPort.Failf"; "InParamPort.From"; "InParamPort.Name"; "InParamPort.Process"; "InParamPort.Ready"; "InParamPort.Send"; "InParamPort.SetReady"; "InPort.AddRemotePort"; "InPort.CloseConnection"; "InPort.Fail"; "InPort.Failf"; "InPort.From"; "InPort.Name"; "InPort.Process"; "InPort.Ready"; "InPort.Send"; "InPort.SetReady"; "NewAuditInfo"; "NewBaseIP"; "NewFileIP"; "NewInPort"; "NewOutPort"; "NewTask"; "OutParamPort.AddRemotePort"; "OutParamPort.Close"; "OutParamPort.Disconnect"; "OutParamPort.Fail"; "OutParamPort.Failf"; "OutParamPort.Name"; "OutParamPort.Process"; "OutParamPort.Ready"; "OutParamPort.Send"; "OutParamPort.SetReady"; "OutParamPort.removeRemotePort"; "OutPort.AddRemotePort"; "OutPort.Close"; "OutPort.Disconnect"; "OutPort.Fail"; "OutPort.Failf"; "OutPort.Name"; "OutPort.Process"; "OutPort.Ready"; "OutPort.Send"; "OutPort.SetReady"; "OutPort.removeRemotePort"; "Process.Out"; "Process.Run"; "Process.createTasks"; "Sink.From"; "Sink.FromParam"; "Sink.Run"; "Sink.in"; "Sink.paramIn"; "Task.Audit"; "Task.Auditf"; "Task.Execute"; "Task.Fail"; "Task.Failf"; "Task.InIP"; "Task.Param"; "Task.Tag"; "Task.TempDir"; "Task.anyOutputsExist"; "Task.createDirs"; "Task.drainStreamingInputs"; "Task.ensureAllOutputsExist"; "Task.executeCommand"; "Task.finalizePaths"; "Task.formatCommand"; "Task.tempDirsExist"; "Task.writeAuditLogs"; "UnmarshalAuditInfoJSONFile"; "Workflow.Auditf"; "Workflow.DecConcurrentTasks"; "Workflow.Fail"; "Workflow.Failf"; "Workflow.IncConcurrentTasks"; "Workflow.Name"; "Workflow.readyToRun"; "Workflow.reconnectDeadEndConnections"; "Workflow.runProcs"; "applyPathModifiers"; "components.CommandToParams.Run"; "components.Concatenator.In"; "components.Concatenator.Out"; "components.Concatenator.Run"; "components.FileCombinator.Out"; "components.FileCombinator.Run"; "components.FileCombinator.combine"; "components.FileGlobber.InDependency"; "components.FileGlobber.Out"; "components.FileGlobber.Run"; "components.FileGlobber.globFiles"; "components.FileSource.Out"; "components.FileSource.Run"; "components.FileSplitter.InFile"; "components.FileSplitter.OutSplitFile"; "components.FileSplitter.Run"; "components.FileSplitter.createNewSplitFile"; "components.FileSplitter.newSplitIPFromIndex"; "components.FileToParamsReader.OutLine"; "components.FileToParamsReader.Run"; "components.IPSelectorSync.Out"; "components.IPSelectorSync.Run"; "components.IPSelectorSync.recvOneEach"; "components.IPSelectorSync.syncRead"; "components.MapToTags.In"; "components.MapToTags.Out"; "components.MapToTags.Run"; "components.ParamCombinator.OutParam"; "components.ParamCombinator.Run"; "components.ParamSource.Out"; "components.ParamSource.Run"; "components.StreamToSubStream.In"; "components.StreamToSubStream.OutSubStream"; "components.StreamToSubStream.Run"; "components.combine"; "components.errWrapf"; "drainFifo"; "errWrap"; "getBufsize"; "getShellCommandPlaceHolderRegex"; "pathIsValid"; "prependParentDirPath"; "randSeqLC"; "replaceParentDirsWithPlaceholder"; "replacePlaceholdersWithParentDirs"; "sanitizePathFragment"; "sortedFileIPMapKeys"; "sortedFileIPSliceMapKeys"; "sortedStringMapKeys"; "splitAllPaths"; "strInSlice"; "taskQueue.NextTaskDone"; "verifPoint"; "verifPortName"; "verifTaskKeys"].
+  ["BaseProcess.Audit"; "BaseProcess.Auditf"; "BaseProcess.CloseAllOutPorts"; "BaseProcess.CloseOutParamPorts"; "BaseProcess.CloseOutPorts"; "BaseProcess.Fail"; "BaseProcess.Failf"; "BaseProcess.InParamPort"; "BaseProcess.InParamPorts"; "BaseProcess.InPort"; "BaseProcess.InPorts"; "BaseProcess.InitOutPort"; "BaseProcess.Name"; "BaseProcess.OutParamPort"; "BaseProcess.OutParamPorts"; "BaseProcess.OutPort"; "BaseProcess.OutPorts"; "BaseProcess.Ready"; "BaseProcess.receiveOnInParamPorts"; "BaseProcess.receiveOnInPorts"; "CheckWithMsg"; "Fail"; "Failf"; "FileIP.AddTag"; "FileIP.AddTags"; "FileIP.AuditFilePath"; "FileIP.AuditInfo"; "FileIP.CreateFifo"; "FileIP.Exists"; "FileIP.Fail"; "FileIP.Failf"; "FileIP.FifoFileExists"; "FileIP.FifoPath"; "FileIP.Path"; "FileIP.SetAuditInfo"; "FileIP.Tag"; "FileIP.Tags"; "FileIP.TempDir"; "FileIP.TempPath"; "FileIP.WriteAuditLogToFile"; "FileIP.auditInfoSnapshot"; "FileIP.createDirs"; "FinalizePaths"; "InParamPort.AddRemotePort"; "InParamPort.CloseConnection"; "InParamPort.Fail"; "InParamPort.Failf"; "InParamPort.From"; "InParamPort.Name"; "InParamPort.Process"; "InParamPort.Ready"; "InParamPort.Send"; "InParamPort.SetReady"; "InPort.AddRemotePort"; "InPort.CloseConnection"; "InPort.Fail"; "InPort.Failf"; "InPort.From"; "InPort.Name"; "InPort.Process"; "InPort.Ready"; "InPort.Send"; "InPort.SetReady"; "NewAuditInfo"; "NewBaseIP"; "NewFileIP"; "NewInPort"; "NewOutPort"; "NewTask"; "OutParamPort.AddRemotePort"; "OutParamPort.Close"; "OutParamPort.Disconnect"; "OutParamPort.Fail"; "OutParamPort.Failf"; "OutParamPort.Name"; "OutParamPort.Process"; "OutParamPort.Ready"; "OutParamPort.Send"; "OutParamPort.SetReady"; "OutParamPort.removeRemotePort"; "OutPort.AddRemotePort"; "OutPort.Close"; "OutPort.Disconnect"; "OutPort.Fail"; "OutPort.Failf"; "OutPort.Name"; "OutPort.Process"; "OutPort.Ready"; "OutPort.Send"; "OutPort.SetReady"; "OutPort.removeRemotePort"; "Process.Out"; "Process.Run"; "Process.createTasks"; "Sink.From"; "Sink.FromParam"; "Sink.Run"; "Sink.in"; "Sink.paramIn"; "Task.Audit"; "Task.Auditf"; "Task.Execute"; "Task.Fail"; "Task.Failf"; "Task.InIP"; "Task.Param"; "Task.Tag"; "Task.TempDir"; "Task.anyOutputsExist"; "Task.createDirs"; "Task.drainStreamingInputs"; "Task.ensureAllOutputsExist"; "Task.executeCommand"; "Task.finalizePaths"; "Task.formatCommand"; "Task.signalDone"; "Task.tempDirsExist"; "Task.writeAuditLogs"; "UnmarshalAuditInfoJSONFile"; "Workflow.Auditf"; "Workflow.DecConcurrentTasks"; "Workflow.Fail"; "Workflow.Failf"; "Workflow.IncConcurrentTasks"; "Workflow.Name"; "Workflow.readyToRun"; "Workflow.reconnectDeadEndConnections"; "Workflow.runProcs"; "applyPathModifiers"; "components.CommandToParams.Run"; "components.Concatenator.In"; "components.Concatenator.Out"; "components.Concatenator.Run"; "components.FileCombinator.Out"; "components.FileCombinator.Run"; "components.FileCombinator.combine"; "components.FileGlobber.InDependency"; "components.FileGlobber.Out"; "components.FileGlobber.Run"; "components.FileGlobber.globFiles"; "components.FileSource.Out"; "components.FileSource.Run"; "components.FileSplitter.InFile"; "components.FileSplitter.OutSplitFile"; "components.FileSplitter.Run"; "components.FileSplitter.createNewSplitFile"; "components.FileSplitter.newSplitIPFromIndex"; "components.FileToParamsReader.OutLine"; "components.FileToParamsReader.Run"; "components.IPSelectorSync.Out"; "components.IPSelectorSync.Run"; "components.IPSelectorSync.recvOneEach"; "components.IPSelectorSync.syncRead"; "components.MapToTags.In"; "components.MapToTags.Out"; "components.MapToTags.Run"; "components.ParamCombinator.OutParam"; "components.ParamCombinator.Run"; "components.ParamSource.Out"; "components.ParamSource.Run"; "components.StreamToSubStream.In"; "components.StreamToSubStream.OutSubStream"; "components.StreamToSubStream.Run"; "components.combine"; "components.errWrapf"; "drainFifo"; "errWrap"; "getBufsize"; "getShellCommandPlaceHolderRegex"; "pathIsValid"; "prependParentDirPath"; "randSeqLC"; "replaceParentDirsWithPlaceholder"; "replacePlaceholdersWithParentDirs"; "sanitizePathFragment"; "sortedFileIPMapKeys"; "sortedFileIPSliceMapKeys"; "sortedStringMapKeys"; "splitAllPaths"; "strInSlice"; "taskQueue.NextTaskDone"; "verifPoint"; "verifPortName"; "verifTaskKeys"].
 
 Definition exp_cone_Workflow_RunToProcs : list string :=
-  ["BaseProcess.Audit"; "BaseProcess.Auditf"; "BaseProcess.CloseAllOutPorts"; "BaseProcess.CloseOutParamPorts"; "BaseProcess.CloseOutPorts"; "BaseProcess.Fail"; "BaseProcess.Failf"; "BaseProcess.InParamPort"; "BaseProcess.InParamPorts"; "BaseProcess.InPort"; "BaseProcess.InPorts"; "BaseProcess.InitOutPort"; "BaseProcess.Name"; "BaseProcess.OutParamPort"; "BaseProcess.OutParamPorts"; "BaseProcess.OutPort"; "BaseProcess.OutPorts"; "BaseProcess.Ready"; "BaseProcess.receiveOnInParamPorts"; "BaseProcess.receiveOnInPorts"; "CheckWithMsg"; "Fail"; "Failf"; "FileIP.AddTag"; "FileIP.AddTags"; "FileIP.AuditFilePath"; "FileIP.AuditInfo"; "FileIP.CreateFifo"; "FileIP.Exists"; "FileIP.Fail"; "FileIP.Failf"; "FileIP.FifoFileExists"; "FileIP.FifoPath"; "FileIP.Path"; "FileIP.SetAuditInfo"; "FileIP.Tag"; "FileIP.Tags"; "FileIP.TempDir"; "FileIP.TempPath"; "FileIP.WriteAuditLogToFile"; "FileIP.auditInfoSnapshot"; "FileIP.createDirs"; "FinalizePaths"; "InParamPort.AddRemotePort"; "InParamPort.CloseConnection"; "InParamPort.Fail"; "InParamPort.Failf"; "InParamPort.From"; "InParamPort.Name"; "InParamPort.Process"; "InParamPort.Ready"; "InParamPort.Send"; "InParamPort.SetReady"; "InParamPort.connectedOutParamPorts"; "InPort.AddRemotePort"; "InPort.CloseConnection"; "InPort.Fail"; "InPort.Failf"; "InPort.From"; "InPort.Name"; "InPort.Process"; "InPort.Ready"; "InPort.Send"; "InPort.SetReady"; "NewAuditInfo"; "NewBaseIP"; "NewFileIP"; "NewInPort"; "NewOutPort"; "NewTask"; "OutParamPort.AddRemotePort"; "OutParamPort.Close"; "OutParamPort.Disconnect"; "OutParamPort.Fail"; "OutParamPort.Failf"; "OutParamPort.Name"; "OutParamPort.Process"; "OutParamPort.Ready"; "OutParamPort.Send"; "OutParamPort.SetReady"; "OutParamPort.removeRemotePort"; "OutPort.AddRemotePort"; "OutPort.Close"; "OutPort.Disconnect"; "OutPort.Fail"; "OutPort.Failf"; "OutPort.Name"; "OutPort.Process"; "OutPort.Ready"; "OutPort.Send"; "OutPort.SetReady"; "OutPort.removeRemotePort"; "Process.Out"; "Process.Run"; "Process.createTasks"; "Sink.From"; "Sink.FromParam"; "Sink.Run"; "Sink.in"; "Sink.paramIn"; "Task.Audit"; "Task.Auditf"; "Task.Execute"; "Task.Fail"; "Task.Failf"; "Task.InIP"; "Task.Param"; "Task.Tag"; "Task.TempDir"; "Task.anyOutputsExist"; "Task.createDirs"; "Task.drainStreamingInputs"; "Task.ensureAllOutputsExist"; "Task.executeCommand"; "Task.finalizePaths"; "Task.formatCommand"; "Task.tempDirsExist"; "Task.writeAuditLogs"; "UnmarshalAuditInfoJSONFile"; "Workflow.Auditf"; "Workflow.DecConcurrentTasks"; "Workflow.Fail"; "Workflow.Failf"; "Workflow.IncConcurrentTasks"; "Workflow.Name"; "Workflow.Run"; "Workflow.readyToRun"; "Workflow.reconnectDeadEndConnections"; "Workflow.runProcs"; "applyPathModifiers"; "collectUpstreamProcs"; "components.CommandToParams.Run"; "components.Concatenator.In"; "components.Concatenator.Out"; "components.Concatenator.Run"; "components.FileCombinator.Out"; "components.FileCombinator.Run"; "components.FileCombinator.combine"; "components.FileGlobber.InDependency"; "components.FileGlobber.Out"; "components.FileGlobber.Run"; "components.FileGlobber.globFiles"; "components.FileSource.Out"; "components.FileSource.Run"; "components.FileSplitter.InFile"; "components.FileSplitter.OutSplitFile"; "components.FileSplitter.Run"; "components.FileSplitter.createNewSplitFile"; "components.FileSplitter.newSplitIPFromIndex"; "components.FileToParamsReader.OutLine"; "components.FileToParamsReader.Run"; "components.IPSelectorSync.Out"; "components.IPSelectorSync.Run"; "components.IPSelectorSync.recvOneEach"; "components.IPSelectorSync.syncRead"; "components.MapToTags.In"; "components.MapToTags.Out"; "components.MapToTags.Run"; "components.ParamCombinator.OutParam"; "components.ParamCombinator.Run"; "components.ParamSource.Out"; "components.ParamSource.Run"; "components.StreamToSubStream.In"; "components.StreamToSubStream.OutSubStream"; "components.StreamToSubStream.Run"; "components.combine"; "components.errWrapf"; "drainFifo"; "errWrap"; "getBufsize"; "getShellCommandPlaceHolderRegex"; "mergeWFMaps"; "pathIsValid"; "prependParentDirPath"; "randSeqLC"; "replaceParentDirsWithPlaceholder"; "replacePlaceholdersWithParentDirs"; "sanitizePathFragment"; "sortedFileIPMapKeys"; "sortedFileIPSliceMapKeys"; "sortedStringMapKeys"; "splitAllPaths"; "strInSlice"; "taskQueue.NextTaskDone"; "upstreamProcsForProc"; "verifPoint"; "verifPortName"; "verifTaskKeys"].
+  ["BaseProcess.Audit"; "BaseProcess.Auditf"; "BaseProcess.CloseAllOutPorts"; "BaseProcess.CloseOutParamPorts"; "BaseProcess.CloseOutPorts"; "BaseProcess.Fail"; "BaseProcess.Failf"; "BaseProcess.InParamPort"; "BaseProcess.InParamPorts"; "BaseProcess.InPort"; "BaseProcess.InPorts"; "BaseProcess.InitOutPort"; "BaseProcess.Name"; "BaseProcess.OutParamPort"; "BaseProcess.OutParamPorts"; "BaseProcess.OutPort"; "BaseProcess.OutPorts"; "BaseProcess.Ready"; "BaseProcess.receiveOnInParamPorts"; "BaseProcess.receiveOnInPorts"; "CheckWithMsg"; "Fail"; "Failf"; "FileIP.AddTag"; "FileIP.AddTags"; "FileIP.AuditFilePath"; "FileIP.AuditInfo"; "FileIP.CreateFifo"; "FileIP.Exists"; "FileIP.Fail"; "FileIP.Failf"; "FileIP.FifoFileExists"; "FileIP.FifoPath"; "FileIP.Path"; "FileIP.SetAuditInfo"; "FileIP.Tag"; "FileIP.Tags"; "FileIP.TempDir"; "FileIP.TempPath"; "FileIP.WriteAuditLogToFile"; "FileIP.auditInfoSnapshot"; "FileIP.createDirs"; "FinalizePaths"; "InParamPort.AddRemotePort"; "InParamPort.CloseConnection"; "InParamPort.Fail"; "InParamPort.Failf"; "InParamPort.From"; "InParamPort.Name"; "InParamPort.Process"; "InParamPort.Ready"; "InParamPort.Send"; "InParamPort.SetReady"; "InParamPort.connectedOutParamPorts"; "InPort.AddRemotePort"; "InPort.CloseConnection"; "InPort.Fail"; "InPort.Failf"; "InPort.From"; "InPort.Name"; "InPort.Process"; "InPort.Ready"; "InPort.Send"; "InPort.SetReady"; "NewAuditInfo"; "NewBaseIP"; "NewFileIP"; "NewInPort"; "NewOutPort"; "NewTask"; "OutParamPort.AddRemotePort"; "OutParamPort.Close"; "OutParamPort.Disconnect"; "OutParamPort.Fail"; "OutParamPort.Failf"; "OutParamPort.Name"; "OutParamPort.Process"; "OutParamPort.Ready"; "OutParamPort.Send"; "OutParamPort.SetReady"; "OutParamPort.removeRemotePort"; "OutPort.AddRemotePort"; "OutPort.Close"; "OutPort.Disconnect"; "OutPort.Fail"; "OutPort.Failf"; "OutPort.Name"; "OutPort.Process"; "OutPort.Ready"; "OutPort.Send"; "OutPort.SetReady"; "OutPort.removeRemotePort"; "Process.Out"; "Process.Run"; "Process.createTasks"; "Sink.From"; "Sink.FromParam"; "Sink.Run"; "Sink.in"; "Sink.paramIn"; "Task.Audit"; "Task.Auditf"; "Task.Execute"; "Task.Fail"; "Task.Failf"; "Task.InIP"; "Task.Param"; "Task.Tag"; "Task.TempDir"; "Task.anyOutputsExist"; "Task.createDirs"; "Task.drainStreamingInputs"; "Task.ensureAllOutputsExist"; "Task.executeCommand"; "Task.finalizePaths"; "Task.formatCommand"; "Task.signalDone"; "Task.tempDirsExist"; "Task.writeAuditLogs"; "UnmarshalAuditInfoJSONFile"; "Workflow.Auditf"; "Workflow.DecConcurrentTasks"; "Workflow.Fail"; "Workflow.Failf"; "Workflow.IncConcurrentTasks"; "Workflow.Name"; "Workflow.Run"; "Workflow.readyToRun"; "Workflow.reconnectDeadEndConnections"; "Workflow.runProcs"; "applyPathModifiers"; "collectUpstreamProcs"; "components.CommandToParams.Run"; "components.Concatenator.In"; "components.Concatenator.Out"; "components.Concatenator.Run"; "components.FileCombinator.Out"; "components.FileCombinator.Run"; "components.FileCombinator.combine"; "components.FileGlobber.InDependency"; "components.FileGlobber.Out"; "components.FileGlobber.Run"; "components.FileGlobber.globFiles"; "components.FileSource.Out"; "components.FileSource.Run"; "components.FileSplitter.InFile"; "components.FileSplitter.OutSplitFile"; "components.FileSplitter.Run"; "components.FileSplitter.createNewSplitFile"; "components.FileSplitter.newSplitIPFromIndex"; "components.FileToParamsReader.OutLine"; "components.FileToParamsReader.Run"; "components.IPSelectorSync.Out"; "components.IPSelectorSync.Run"; "components.IPSelectorSync.recvOneEach"; "components.IPSelectorSync.syncRead"; "components.MapToTags.In"; "components.MapToTags.Out"; "components.MapToTags.Run"; "components.ParamCombinator.OutParam"; "components.ParamCombinator.Run"; "components.ParamSource.Out"; "components.ParamSource.Run"; "components.StreamToSubStream.In"; "components.StreamToSubStream.OutSubStream"; "components.StreamToSubStream.Run"; "components.combine"; "components.errWrapf"; "drainFifo"; "errWrap"; "getBufsize"; "getShellCommandPlaceHolderRegex"; "mergeWFMaps"; "pathIsValid"; "prependParentDirPath"; "randSeqLC"; "replaceParentDirsWithPlaceholder"; "replacePlaceholdersWithParentDirs"; "sanitizePathFragment"; "sortedFileIPMapKeys"; "sortedFileIPSliceMapKeys"; "sortedStringMapKeys"; "splitAllPaths"; "strInSlice"; "taskQueue.NextTaskDone"; "upstreamProcsForProc"; "verifPoint"; "verifPortName"; "verifTaskKeys"].
 
 Definition exp_cone_Workflow_runProcs : list string :=
-  ["BaseProcess.Audit"; "BaseProcess.Auditf"; "BaseProcess.CloseAllOutPorts"; "BaseProcess.CloseOutParamPorts"; "BaseProcess.CloseOutPorts"; "BaseProcess.Fail"; "BaseProcess.Failf"; "BaseProcess.InParamPort"; "BaseProcess.InParamPorts"; "BaseProcess.InPort"; "BaseProcess.InPorts"; "BaseProcess.InitOutPort"; "BaseProcess.Name"; "BaseProcess.OutParamPort"; "BaseProcess.OutParamPorts"; "BaseProcess.OutPort"; "BaseProcess.OutPorts"; "BaseProcess.Ready"; "BaseProcess.receiveOnInParamPorts"; "BaseProcess.receiveOnInPorts"; "CheckWithMsg"; "Fail"; "Failf"; "FileIP.AddTag"; "FileIP.AddTags"; "FileIP.AuditFilePath"; "FileIP.AuditInfo"; "FileIP.CreateFifo"; "FileIP.Exists"; "FileIP.Fail"; "FileIP.Failf"; "FileIP.FifoFileExists"; "FileIP.FifoPath"; "FileIP.Path"; "FileIP.SetAuditInfo"; "FileIP.Tag"; "FileIP.Tags"; "FileIP.TempDir"; "FileIP.TempPath"; "FileIP.WriteAuditLogToFile"; "FileIP.auditInfoSnapshot"; "FileIP.createDirs"; "FinalizePaths"; "InParamPort.AddRemotePort"; "InParamPort.CloseConnection"; "InParamPort.Fail"; "InParamPort.Failf"; "InParamPort.From"; "InParamPort.Name"; "InParamPort.Process"; "InParamPort.Ready"; "InParamPort.Send"; "InParamPort.SetReady"; "InPort.AddRemotePort"; "InPort.CloseConnection"; "InPort.Fail"; "InPort.Failf"; "InPort.From"; "InPort.Name"; "InPort.Process"; "InPort.Ready"; "InPort.Send"; "InPort.SetReady"; "NewAuditInfo"; "NewBaseIP"; "NewFileIP"; "NewInPort"; "NewOutPort"; "NewTask"; "OutParamPort.AddRemotePort"; "OutParamPort.Close"; "OutParamPort.Disconnect"; "OutParamPort.Fail"; "OutParamPort.Failf"; "OutParamPort.Name"; "OutParamPort.Process"; "OutParamPort.Ready"; "OutParamPort.Send"; "OutParamPort.SetReady"; "OutParamPort.removeRemotePort"; "OutPort.AddRemotePort"; "OutPort.Close"; "OutPort.Disconnect"; "OutPort.Fail"; "OutPort.Failf"; "OutPort.Name"; "OutPort.Process"; "OutPort.Ready"; "OutPort.Send"; "OutPort.SetReady"; "OutPort.removeRemotePort"; "Process.Out"; "Process.Run"; "Process.createTasks"; "Sink.From"; "Sink.FromParam"; "Sink.Run"; "Sink.in"; "Sink.paramIn"; "Task.Audit"; "Task.Auditf"; "Task.Execute"; "Task.Fail"; "Task.Failf"; "Task.InIP"; "Task.Param"; "Task.Tag"; "Task.TempDir"; "Task.anyOutputsExist"; "Task.createDirs"; "Task.drainStreamingInputs"; "Task.ensureAllOutputsExist"; "Task.executeCommand"; "Task.finalizePaths"; "Task.formatCommand"; "Task.tempDirsExist"; "Task.writeAuditLogs"; "UnmarshalAuditInfoJSONFile"; "Workflow.Auditf"; "Workflow.DecConcurrentTasks"; "Workflow.Fail"; "Workflow.Failf"; "Workflow.IncConcurrentTasks"; "Workflow.Name"; "Workflow.Run"; "Workflow.readyToRun"; "Workflow.reconnectDeadEndConnections"; "applyPathModifiers"; "components.CommandToParams.Run"; "components.Concatenator.In"; "components.Concatenator.Out"; "components.Concatenator.Run"; "components.FileCombinator.Out"; "components.FileCombinator.Run"; "components.FileCombinator.combine"; "components.FileGlobber.InDependency"; "components.FileGlobber.Out"; "components.FileGlobber.Run"; "components.FileGlobber.globFiles"; "components.FileSource.Out"; "components.FileSource.Run"; "components.FileSplitter.InFile"; "components.FileSplitter.OutSplitFile"; "components.FileSplitter.Run"; "components.FileSplitter.createNewSplitFile"; "components.FileSplitter.newSplitIPFromIndex"; "components.FileToParamsReader.OutLine"; "components.FileToParamsReader.Run"; "components.IPSelectorSync.Out"; "components.IPSelectorSync.Run"; "components.IPSelectorSync.recvOneEach"; "components.IPSelectorSync.syncRead"; "components.MapToTags.In"; "components.MapToTags.Out"; "components.MapToTags.Run"; "components.ParamCombinator.OutParam"; "components.ParamCombinator.Run"; "components.ParamSource.Out"; "components.ParamSource.Run"; "components.StreamToSubStream.In"; "components.StreamToSubStream.OutSubStream"; "components.StreamToSubStream.Run"; "components.combine"; "components.errWrapf"; "drainFifo"; "errWrap"; "getBufsize"; "getShellCommandPlaceHolderRegex"; "pathIsValid"; "prependParentDirPath"; "randSeqLC"; "replaceParentDirsWithPlaceholder"; "replacePlaceholdersWithParentDirs"; "sanitizePathFragment"; "sortedFileIPMapKeys"; "sortedFileIPSliceMapKeys"; "sortedStringMapKeys"; "splitAllPaths"; "strInSlice"; "taskQueue.NextTaskDone"; "verifPoint"; "verifPortName"; "verifTaskKeys"].
+  ["BaseProcess.Audit"; "BaseProcess.Auditf"; "BaseProcess.CloseAllOutPorts"; "BaseProcess.CloseOutParamPorts"; "BaseProcess.CloseOutPorts"; "BaseProcess.Fail"; "BaseProcess.Failf"; "BaseProcess.InParamPort"; "BaseProcess.InParamPorts"; "BaseProcess.InPort"; "BaseProcess.InPorts"; "BaseProcess.InitOutPort"; "BaseProcess.Name"; "BaseProcess.OutParamPort"; "BaseProcess.OutParamPorts"; "BaseProcess.OutPort"; "BaseProcess.OutPorts"; "BaseProcess.Ready"; "BaseProcess.receiveOnInParamPorts"; "BaseProcess.receiveOnInPorts"; "CheckWithMsg"; "Fail"; "Failf"; "FileIP.AddTag"; "FileIP.AddTags"; "FileIP.AuditFilePath"; "FileIP.AuditInfo"; "FileIP.CreateFifo"; "FileIP.Exists"; "FileIP.Fail"; "FileIP.Failf"; "FileIP.FifoFileExists"; "FileIP.FifoPath"; "FileIP.Path"; "FileIP.SetAuditInfo"; "FileIP.Tag"; "FileIP.Tags"; "FileIP.TempDir"; "FileIP.TempPath"; "FileIP.WriteAuditLogToFile"; "FileIP.auditInfoSnapshot"; "FileIP.createDirs"; "FinalizePaths"; "InParamPort.AddRemotePort"; "InParamPort.CloseConnection"; "InParamPort.Fail"; "InParamPort.Failf"; "InParamPort.From"; "InParamPort.Name"; "InParamPort.Process"; "InParamPort.Ready"; "InParamPort.Send"; "InParamPort.SetReady"; "InPort.AddRemotePort"; "InPort.CloseConnection"; "InPort.Fail"; "InPort.Failf"; "InPort.From"; "InPort.Name"; "InPort.Process"; "InPort.Ready"; "InPort.Send"; "InPort.SetReady"; "NewAuditInfo"; "NewBaseIP"; "NewFileIP"; "NewInPort"; "NewOutPort"; "NewTask"; "OutParamPort.AddRemotePort"; "OutParamPort.Close"; "OutParamPort.Disconnect"; "OutParamPort.Fail"; "OutParamPort.Failf"; "OutParamPort.Name"; "OutParamPort.Process"; "OutParamPort.Ready"; "OutParamPort.Send"; "OutParamPort.SetReady"; "OutParamPort.removeRemotePort"; "OutPort.AddRemotePort"; "OutPort.Close"; "OutPort.Disconnect"; "OutPort.Fail"; "OutPort.Failf"; "OutPort.Name"; "OutPort.Process"; "OutPort.Ready"; "OutPort.Send"; "OutPort.SetReady"; "OutPort.removeRemotePort"; "Process.Out"; "Process.Run"; "Process.createTasks"; "Sink.From"; "Sink.FromParam"; "Sink.Run"; "Sink.in"; "Sink.paramIn"; "Task.Audit"; "Task.Auditf"; "Task.Execute"; "Task.Fail"; "Task.Failf"; "Task.InIP"; "Task.Param"; "Task.Tag"; "Task.TempDir"; "Task.anyOutputsExist"; "Task.createDirs"; "Task.drainStreamingInputs"; "Task.ensureAllOutputsExist"; "Task.executeCommand"; "Task.finalizePaths"; "Task.formatCommand"; "Task.signalDone"; "Task.tempDirsExist"; "Task.writeAuditLogs"; "UnmarshalAuditInfoJSONFile"; "Workflow.Auditf"; "Workflow.DecConcurrentTasks"; "Workflow.Fail"; "Workflow.Failf"; "Workflow.IncConcurrentTasks"; "Workflow.Name"; "Workflow.Run"; "Workflow.readyToRun"; "Workflow.reconnectDeadEndConnections"; "applyPathModifiers"; "components.CommandToParams.Run"; "components.Concatenator.In"; "components.Concatenator.Out"; "components.Concatenator.Run"; "components.FileCombinator.Out"; "components.FileCombinator.Run"; "components.FileCombinator.combine"; "components.FileGlobber.InDependency"; "components.FileGlobber.Out"; "components.FileGlobber.Run"; "components.FileGlobber.globFiles"; "components.FileSource.Out"; "components.FileSource.Run"; "components.FileSplitter.InFile"; "components.FileSplitter.OutSplitFile"; "components.FileSplitter.Run"; "components.FileSplitter.createNewSplitFile"; "components.FileSplitter.newSplitIPFromIndex"; "components.FileToParamsReader.OutLine"; "components.FileToParamsReader.Run"; "components.IPSelectorSync.Out"; "components.IPSelectorSync.Run"; "components.IPSelectorSync.recvOneEach"; "components.IPSelectorSync.syncRead"; "components.MapToTags.In"; "components.MapToTags.Out"; "components.MapToTags.Run"; "components.ParamCombinator.OutParam"; "components.ParamCombinator.Run"; "components.ParamSource.Out"; "components.ParamSource.Run"; "components.StreamToSubStream.In"; "components.StreamToSubStream.OutSubStream"; "components.StreamToSubStream.Run"; "components.combine"; "components.errWrapf"; "drainFifo"; "errWrap"; "getBufsize"; "getShellCommandPlaceHolderRegex"; "pathIsValid"; "prependParentDirPath"; "randSeqLC"; "replaceParentDirsWithPlaceholder"; "replacePlaceholdersWithParentDirs"; "sanitizePathFragment"; "sortedFileIPMapKeys"; "sortedFileIPSliceMapKeys"; "sortedStringMapKeys"; "splitAllPaths"; "strInSlice"; "taskQueue.NextTaskDone"; "verifPoint"; "verifPortName"; "verifTaskKeys"].
 
 Definition exp_cone_Workflow_readyToRun : list string :=
   ["BaseProcess.Fail"; "BaseProcess.Failf"; "BaseProcess.Name"; "BaseProcess.Ready"; "Fail"; "Failf"; "InParamPort.Ready"; "InPort.Ready"; "OutParamPort.Ready"; "OutPort.Ready"].
